@@ -93,6 +93,10 @@ type rec struct {
 	sc int
 }
 
+type size2 struct {
+	W, H int
+}
+
 type box struct {
 	items []int
 	tags  []string
